@@ -97,7 +97,9 @@ def check_parses(res, prop, parses, hist, key_fn=None):
             return nontriv
         p = check_segmentation(pw, sections, hist)
         if p:
-            key = "U+0130-lowercase-expands" if U0130 in pw else None
+            key = "U+0130-lowercase-expands" if (U0130 in pw and p[0] in (
+                "multiword_split_not_justified", "not_a_tiling", "alpha_segment_with_non_letter", "length_label_wrong",
+                "empty_segment")) else None
             res.violate(prop, p[0], dict(p[1], password=pw, sections=repr(sections)), key=key)
             if key is None:
                 return nontriv
@@ -126,7 +128,7 @@ def run_c05(t, tier, res):
             with open(mwf, "wb") as f:
                 f.write("".join(w + "\n" for w in mw_words).encode(opts["encoding"]))
             opts = dict(opts, multiword=mwf)
-            res.faults["multiword_pretraining_file"] += 1
+            res.stats["multiword_pretraining_file"] += 1
         tr = trainer.train(pws, opts)
         res.sample = {"mode": "trainer", "passwords": pws[:14], "n": len(pws), "opts": {k: v for k, v in opts.items() if k != "multiword"},
                       "multiword_file": mw_words}
@@ -186,7 +188,7 @@ def run_c05(t, tier, res):
                 if any(v.key is None for v in res.violations):
                     return
         res.sample = {"mode": "detector-history", "ops": ops[:20]}
-        res.faults["detector_history_ops"] += len(ops)
+        res.stats["detector_history_ops"] += len(ops)
     # counters are exactly the tallies
     tally = Tally()
     for _, s in parses:
